@@ -133,6 +133,17 @@ def gen_case(rng, i):
                     for j in range(len(r)):
                         if rng.random() < 0.35:
                             r[j] = rng.choice(['l1\nl2', 'x\n', '\ny', 'a,b\nc'])
+        ragged = i % 11 == 7 and not multiline
+        if ragged:
+            # records shorter or longer than the first one (which stays as wide as the header, a list table demands that): every front-end that can hold such
+            # a table (lists, user iterators, CSV files, the command line) must still agree; dataframes and sqlite tables are rectangular and are skipped
+            for t in (A, B or []):
+                for r in t[1:]:
+                    x = rng.random()
+                    if x < 0.3 and len(r) > 1:
+                        del r[rng.randrange(1, len(r)):]
+                    elif x < 0.5:
+                        r.extend(rng.choice(CELLS) for _ in range(rng.randrange(1, 3)))
         if has_header and i % 9 == 4:
             # the query was built for the full table; the front-ends now get only its header: a CSV file with one line, a zero-row dataframe
             # with named columns, an empty sqlite table, an empty list with column names
@@ -141,6 +152,7 @@ def gen_case(rng, i):
         ctx = qast.Ctx(a_names, b_names)
         case['query_text'] = qast.render(q, ctx, 'py')
         case['multiline'] = multiline
+        case['ragged'] = ragged and any(len(r) != len(t[0]) for t in (A, B or []) for r in t)
         return case
     return None
 
@@ -155,6 +167,8 @@ def acceptable(ref, multiline=False):
         return False
     if ref['header'] is not None and len(ref['header']) == 0:
         return False
+    if ref['header'] is not None and any(len(r) != len(ref['header']) for r in ref['rows']):
+        return False          # (ragged tables) the CSV writer refuses a record whose width differs from the output header; a list sink has no such rule
     for r in ref['rows']:
         if len(r) == 0:
             return False      # zero-width records have no CSV representation (an empty line reads back as one empty field)
@@ -251,6 +265,18 @@ def run_shard(spec, res):
             idx = n * spec['k'] + spec['i']
             case = gen_case(rng, idx)
             ref = reference(ns, case)
+            if ref['error'] is not None:
+                # the reference entry point fails: the same query through rbql.query with user-written classes (same engine, same data) must fail as well
+                w = UW()
+                err2 = None
+                try:
+                    ns.rbql.query(case['query_text'], UI(case['A'], case['a_names']), w, [], UR(case['B'], case['b_names']) if case['B'] is not None else None)
+                except Exception as e:
+                    err2 = util.error_class(e)
+                res.evaluations += 1
+                res.count('failing_reference_cases')
+                if err2 is None:
+                    res.violation('py:front-end-error:query_table', '[query_table] %s raised %s: %s ; rbql.query with user-written iterator / writer gives %r (A=%r B=%r names=%r)' % (case['query_text'], ref['error'], (ref['error_msg'] or '')[:120], norm_rows(w.rows)[:6], case['A'], case['B'], case['a_names']), dict(case, front_end='query_table'))
             if not acceptable(ref, bool(case.get('multiline'))):
                 res.count('cases_skipped_not_type_agnostic')
                 continue
@@ -350,6 +376,9 @@ def run_shard(spec, res):
                     if b'Error [' in p.stderr:
                         res.violation('py:cli-error-line-on-success', '[cli] %s: exit 0 but stderr %r' % (qtext_csv, p.stderr[-200:]), dict(case, front_end='cli-stdin'))
 
+            if case.get('ragged'):
+                res.count('ragged_cases')
+                continue
             # 4. pandas
             dfa = pd.DataFrame(A, columns=an) if has_header else pd.DataFrame(A)
             dfb = None
@@ -566,7 +595,7 @@ def options_leg(ns, res, spec, d, rng):
             else:
                 data = p.stdout
             cmp(front, data, dlm, pol)
-        if mode == 'init' and has_header and len(set(an)) == len(an) and (bn is None or len(set(bn)) == len(bn)):
+        if mode == 'init' and has_header and not case.get('ragged') and len(set(an)) == len(an) and (bn is None or len(set(bn)) == len(bn)):
             db = os.path.join(cd, 'db.sqlite')
             conn = sqlite3.connect(db)
             conn.execute('CREATE TABLE t (%s)' % ', '.join('%s TEXT' % x for x in an))
@@ -672,8 +701,8 @@ def plan(tier, seed):
 def summarize(tier, seed, m):
     fe = {k[10:]: v for k, v in m['counters'].items() if k.startswith('front_end:')}
     return {
-        'rule': 'rectangular string tables (0-5 rows, 1-4 columns, cells with spaces, quotes, commas, non-ASCII, empty; one case in six with line breaks inside cells, run through the quoted_rfc dialect; duplicated column names in 15% of the headed cases; no tabs) with and without header; type-agnostic structured queries (select / where / order / distinct / distinct count / top / inner join / update / except / aggregates) rotating systematically over clause combinations; each executed through query_table (reference) and through 8 entry points: rbql.query with user-written iterator / writer / registry classes, query_csv, CLI file -> file and stdin -> stdout in the three output formats, query_pandas_dataframe, query_sqlite_to_csv, CLI sqlite; plus failing queries (parsing, execution, IO, syntax) x {file, stdout, sqlite} for exit status / Error [type] on stderr, and warning routing; plus an options leg over the parameters of the CSV entry points, each compared with query_table over the same data: comment lines (8 prefixes, before the header, between records, at the end, in the join file too) with comment_prefix / --comment-prefix, user variables and functions from an init source (user_init_code, --init-source-file, ~/.rbql_init_source.py under a private HOME; CLI sqlite too), latin-1 files with cells over the whole 0x80-0xff range and --encoding latin-1, and the policy the command line picks when --policy is left out (quoted for , and ; / whitespace for a space / simple otherwise) with a cell whose CSV form depends on the policy. distinct_nontrivial = distinct (query, tables) with a non-empty result + failing scenarios.',
-        'required': ['cases', 'multiline_cases', 'front_end:query+user-classes', 'front_end:query_csv', 'front_end:pandas', 'front_end:sqlite', 'front_end:cli-sqlite', 'front_end:cli-file-tsv', 'front_end:cli-file-csv', 'front_end:cli-file-input', 'front_end:cli-stdin-stdout-csv', 'cli_failing_runs', 'cli_failing_runs_empty_message', 'cli_warning_runs', 'option_cases:comment', 'option_cases:init', 'option_cases:latin1', 'option_cases:defpolicy', 'front_end:cli-file+comment', 'front_end:cli-stdin+init', 'front_end:cli-sqlite+init', 'front_end:query_csv+latin1', 'front_end:cli-file+defpolicy'],
+        'rule': 'rectangular string tables (0-5 rows, 1-4 columns, cells with spaces, quotes, commas, non-ASCII, empty; one case in six with line breaks inside cells, run through the quoted_rfc dialect; duplicated column names in 15% of the headed cases; one case in eleven with records shorter or longer than the first, run through the front-ends that can hold such a table; no tabs) with and without header; type-agnostic structured queries (select / where / order / distinct / distinct count / top / inner join / update / except / aggregates) rotating systematically over clause combinations; each executed through query_table (reference) and through 8 entry points: rbql.query with user-written iterator / writer / registry classes, query_csv, CLI file -> file and stdin -> stdout in the three output formats, query_pandas_dataframe, query_sqlite_to_csv, CLI sqlite; plus failing queries (parsing, execution, IO, syntax) x {file, stdout, sqlite} for exit status / Error [type] on stderr, and warning routing; plus an options leg over the parameters of the CSV entry points, each compared with query_table over the same data: comment lines (8 prefixes, before the header, between records, at the end, in the join file too) with comment_prefix / --comment-prefix, user variables and functions from an init source (user_init_code, --init-source-file, ~/.rbql_init_source.py under a private HOME; CLI sqlite too), latin-1 files with cells over the whole 0x80-0xff range and --encoding latin-1, and the policy the command line picks when --policy is left out (quoted for , and ; / whitespace for a space / simple otherwise) with a cell whose CSV form depends on the policy. distinct_nontrivial = distinct (query, tables) with a non-empty result + failing scenarios.',
+        'required': ['cases', 'multiline_cases', 'ragged_cases', 'front_end:query+user-classes', 'front_end:query_csv', 'front_end:pandas', 'front_end:sqlite', 'front_end:cli-sqlite', 'front_end:cli-file-tsv', 'front_end:cli-file-csv', 'front_end:cli-file-input', 'front_end:cli-stdin-stdout-csv', 'cli_failing_runs', 'cli_failing_runs_empty_message', 'cli_warning_runs', 'option_cases:comment', 'option_cases:init', 'option_cases:latin1', 'option_cases:defpolicy', 'front_end:cli-file+comment', 'front_end:cli-stdin+init', 'front_end:cli-sqlite+init', 'front_end:query_csv+latin1', 'front_end:cli-file+defpolicy'],
         'extra': {'front_end_comparisons': fe},
         'assumptions': ['query_table is the reference (pinned by C01-C05, C07)', 'types are not compared across back ends (CSV and pandas stringify): cells are compared after the stringification every CSV sink applies', 'scratch files are named in.csv / jn.csv / in_<n>.csv / jn_<n>.csv in a directory c<n> per case: a path containing an a./b. token under a header is the C08 known finding, not a front-end difference'],
     }
